@@ -389,7 +389,7 @@ func checkComponentKey(c *Ctx, r *Report, ver, fn string) {
 	viol := ""
 	var sites []string
 	n := 0
-	ast.Inspect(fi.Decl, func(nd ast.Node) bool {
+	w.inspectRegion(fi, func(nd ast.Node) bool {
 		switch x := nd.(type) {
 		case *ast.AssignStmt:
 			if len(x.Lhs) == 1 {
@@ -455,7 +455,7 @@ func checkStructShape(c *Ctx, r *Report, ver, fn string) {
 			viol = fmt.Sprintf("%s: property key is not GetJsonNameFromTag(field.Tag, field.Name) (%s)", w.pos(pos), a)
 		}
 	}
-	ast.Inspect(fi.Decl, func(nd ast.Node) bool {
+	w.inspectRegion(fi, func(nd ast.Node) bool {
 		switch x := nd.(type) {
 		case *ast.AssignStmt:
 			if len(x.Lhs) == 1 {
@@ -482,7 +482,7 @@ func checkStructShape(c *Ctx, r *Report, ver, fn string) {
 	viol = ""
 	sites = nil
 	nReq := 0
-	ast.Inspect(fi.Decl, func(nd ast.Node) bool {
+	w.inspectRegion(fi, func(nd ast.Node) bool {
 		as, ok := nd.(*ast.AssignStmt)
 		if !ok || len(as.Lhs) != 1 || exprString(as.Lhs[0]) != "requiredFields" || as.Tok != token.ASSIGN {
 			return true
@@ -526,7 +526,7 @@ func checkStructShape(c *Ctx, r *Report, ver, fn string) {
 	viol = ""
 	sites = nil
 	allOfOK, errSkipOK := false, false
-	ast.Inspect(fi.Decl, func(nd ast.Node) bool {
+	w.inspectRegion(fi, func(nd ast.Node) bool {
 		switch x := nd.(type) {
 		case *ast.AssignStmt:
 			if len(x.Lhs) == 1 && strings.HasSuffix(exprString(x.Lhs[0]), ".AllOf") {
